@@ -342,7 +342,7 @@ func c12DrawScenario(t *rapid.T, run *c12Run) {
 	}
 	perm := rapid.Permutation(corrupt).Draw(t, "scenarioRoles")
 	a, b := perm[0], perm[1]
-	switch rapid.IntRange(0, 11).Draw(t, "scenarioKind") {
+	switch rapid.IntRange(0, 12).Draw(t, "scenarioKind") {
 	case 0:
 		// a sends b a bad share, b keeps quiet about it, a then fails in
 		// phase 7 so its key must be reconstructed; b reveals (or not)
@@ -476,6 +476,17 @@ func c12DrawScenario(t *rapid.T, run *c12Run) {
 		b.scriptPeer = a.idx
 		run.note("scenario second-accusation-of-guilty m%d by m%d", a.idx, b.idx)
 		run.fired["scenario:second-accusation-of-guilty"] = true
+	case 12:
+		// phase 1: a's message lacks exactly the key for b, b's message is
+		// malformed too (lacks a key for somebody else): whether a's message
+		// is complete must not depend on b's standing at the moment a's
+		// message is looked at (seed C01_3a; phase 1/2 analogue of scenario 5)
+		a.script = map[string]string{"p1": "key-missing-peer"}
+		b.script = map[string]string{"p1": rapid.SampledFrom([]string{"key-missing-honest", "key-missing-peer"}).Draw(t, "scnP1")}
+		a.scriptPeer = b.idx
+		b.scriptPeer = a.idx
+		run.note("scenario omitted-ephemeral-keys m%d m%d", a.idx, b.idx)
+		run.fired["scenario:omitted-ephemeral-keys"] = true
 	}
 }
 
@@ -509,6 +520,20 @@ func (r *c12Run) scripted(t *rapid.T, m *c12Member, out []net.TaggedMarshaler, b
 			res = append(res, alt)
 		}
 		return res
+	case "key-missing-peer", "key-missing-honest":
+		msg := out[0].(*EphemeralPublicKeyMessage)
+		victim := m.scriptPeer
+		if behaviour == "key-missing-honest" {
+			victim = r.honestSeat(t, "scnKeyVictim")
+		}
+		alt := &EphemeralPublicKeyMessage{senderID: msg.senderID, sessionID: msg.sessionID, ephemeralPublicKeys: map[group.MemberIndex]*ephemeral.PublicKey{}}
+		for k, v := range msg.ephemeralPublicKeys {
+			if k != victim {
+				alt.ephemeralPublicKeys[k] = v
+			}
+		}
+		r.note("m%d victim %d", m.idx, victim)
+		return []net.TaggedMarshaler{alt}
 	case "shares-missing-peer", "shares-missing-honest", "wrong-shares-for-honest":
 		st := m.st.(*commitmentState)
 		victim := m.scriptPeer
@@ -1197,6 +1222,9 @@ func (r *c12Run) execute(t *rapid.T) {
 				b, err := msg.Marshal()
 				if err != nil {
 					continue // not representable on the wire
+				}
+				if m.corrupt {
+					b = r.wireMutate(t, m, msg.Type(), b)
 				}
 				queues[m.idx] = append(queues[m.idx], c12Wire{typ: msg.Type(), bytes: b, pubKey: m.pubKey, from: m.idx})
 			}
